@@ -9,6 +9,7 @@ A5  a negative literal factor must negate the operand before summing: -(x + .. +
 A4  the constant-multiplication rewrite splits the literal into magnitude and sign: every rewritten result is returned on one
     edge of a test of that sign (a fast path that looks at the magnitude only drops the sign)
 A8  the overflow term of signed multiplication (computed on magnitudes) depends on the sign of the product
+A9  cross-reference: untyped constant sub-expressions are re-typed together with their top node (C05-S13)
 A7  cross-reference: the peephole rewrites through which every operator network is built keep the function (C04 O4 / O5 / O7 / O9 / O10)
 """
 from .. import mir
@@ -503,5 +504,18 @@ def rule_a8(ctx):
     return res
 
 
+def rule_a9(ctx):
+    """Cross-reference: an untyped constant sub-expression has to be computed in the type it is used with (C05-S13), else
+    `a == (255 + 1)` is true for a = 0u8 and `x + ((0 - 1) + 0)` panics for an i8."""
+    from . import C05
+    res = RuleResult("A9", "untyped constant sub-expressions are computed in the type they are used with (cross-reference to C05-S13)")
+    sub = C05.rule_s13(ctx)
+    for x in sub.findings:
+        res.bad(Finding("A9", x.fn, x.site, x.message, x.span))
+    if not sub.findings:
+        res.ok({"verdict": "C05-S13 holds"})
+    return res
+
+
 def run(ctx):
-    return ctx.run_rules([rule_a1, rule_a2, rule_a3, rule_a4, rule_a5, rule_a6, rule_a7, rule_a8])
+    return ctx.run_rules([rule_a1, rule_a2, rule_a3, rule_a4, rule_a5, rule_a6, rule_a7, rule_a8, rule_a9])
